@@ -340,6 +340,8 @@ func errKind(err error) string {
 		return "bad-new"
 	case strings.Contains(s, "point count cannot be negative"):
 		return "storage"
+	case strings.Contains(s, "point does not exist"):
+		return "not-found"
 	case strings.Contains(s, "could not complete"):
 		return "index" // the pipeline failed on the index side (dispatcher / drain function)
 	}
@@ -456,7 +458,7 @@ func readOf(s *shard.Shard, id uuid.UUID) string {
 	if len(res) > 1 {
 		return fmt.Sprintf("error:%d results", len(res))
 	}
-	return renderPoint(res[0].Point.Id, res[0].Point.Data)
+	return "found " + renderPoint(res[0].Point.Id, res[0].Point.Data)
 }
 
 type dump struct {
